@@ -124,20 +124,21 @@ class Gen:
         return self.scalar(kind), []
 
 
-def run_valuations(A, fn, args, limit=24):
+def run_valuations(A, fn, args, limit=24, with_terms=False):
     """every outcome of fn(*args) when conditions on abstract values are taken both ways (depth-first, bounded)"""
     out, work = [], [[]]
     while work and len(out) < limit:
         script = work.pop()
-        taken, memo = [], {}
+        taken, memo, terms = [], {}, []
 
-        def oracle(term, script=script, taken=taken, memo=memo):
+        def oracle(term, script=script, taken=taken, memo=memo, terms=terms):
             key = repr(term)
             if key in memo:
                 return memo[key]
             k = len(taken)
             v = script[k] if k < len(script) else True
             taken.append(v)
+            terms.append(term)
             memo[key] = v
             return v
         A.oracle = oracle
@@ -145,7 +146,7 @@ def run_valuations(A, fn, args, limit=24):
             r = A.apply(fn, list(args))
         finally:
             A.oracle = None
-        out.append((tuple(taken), r))
+        out.append((tuple(taken), r, list(terms)) if with_terms else (tuple(taken), r))
         for k in range(len(script), len(taken)):
             if taken[k] is True:
                 work.append(taken[:k] + [False])
